@@ -99,6 +99,13 @@ Definition native (prev_code : bool) (t : tx) : bool :=
 Definition P_C03 (c : acase) : bool :=
   forall_blocks c (λ _ b, forallb (λ x : tx * res Z, negb (succeeded x) || t_sigok x.1) (k_txs b)).
 
+(* ------------------------------------------------------------------ C09: no call of a history panics *)
+(* (the harness captures a Go panic of an ABCI call and records it as a Panic answer) *)
+Definition P_C09 (c : acase) : bool :=
+  forallb (λ o, match o with
+                | OBegin (Panic _) | ODeliver (Panic _) | OEnd (Panic _) => false
+                | _ => true end) (c_obs c).
+
 (* ------------------------------------------------------------------ C04: nonces *)
 (* within a block, the k-th successful transaction of a sender carries nonce = committed nonce + k,
    and the committed nonce moves by the number of successes; failed ones move nothing.  Accounts that
